@@ -20,6 +20,7 @@ PROFILE = {
     "attempt_timeout": 0.1,
     "multi_call": (1, 2),
     "handler_time": 0.3,
+    "offgrid_delays": 0.15,
 }
 ENTRIES = C.CALL_ENTRIES + ["Retry.context.call", "AsyncRetry.context.call", "Policy.context.call", "AsyncPolicy.context.call", "decorator.call", "adecorator.call"]
 
